@@ -79,7 +79,7 @@ END_SENSITIVE = ('addcolumn', 'addcolumn-view', 'annex', 'cat', 'stack',
 
 def budget(tier):
     if tier == 'quick':
-        return {'cases': 12000, 'wall_cap_s': 240}
+        return {'cases': 24000, 'wall_cap_s': 240}
     return {'cases': 400000, 'wall_cap_s': 1500}
 
 
@@ -111,7 +111,12 @@ EAGER_ITER = [n for n in ('hashjoin', 'hashleftjoin', 'hashrightjoin')
               if n in RECIPES]
 
 
+STREAM_PAIRS = [(n, i) for n in STREAM_NAMES
+                for i in range(len(RECIPES[n].variants))]
+
+
 def gen_case(rng, tier, g):
+    vi0 = None
     r = rng.random()
     if r < 0.12:
         return _gen_bytes(rng, tier, g)
@@ -125,10 +130,14 @@ def gen_case(rng, tier, g):
         name = rng.choice(EAGER_ITER)
         eager = True
     else:
-        name = STREAM_NAMES[g % len(STREAM_NAMES)] if rng.random() < 0.6 \
-            else rng.choice(STREAM_NAMES)
+        name = rng.choice(STREAM_NAMES)
+        if rng.random() < 0.6:
+            # round robin over every (recipe, argument variant) pair
+            name, vi0 = STREAM_PAIRS[g % len(STREAM_PAIRS)]
     rec = RECIPES[name]
     stack = [[name, rng.randrange(len(rec.variants))]]
+    if vi0 is not None:
+        stack[0][1] = vi0
     if rec.stream and not rec.items and not rec.multi \
             and rec.profile != 'biggroups' \
             and rng.random() < (0.95 if eager else 0.3):
